@@ -267,7 +267,7 @@ impl<T: Send> Drop for RendezvousSyncReceiver<T> {
 impl<T: Send> RendezvousAsyncSender<T> {
   /// Sends a value, resolving once the receiver takes it or the channel closes.
   pub fn send(&self, item: T) -> SendFuture<'_, T> {
-    SendFuture::new(&self.shared, item)
+    SendFuture::new(&self.shared, item, self.closed.load(Ordering::Relaxed))
   }
 
   /// Attempts to hand off to an already-waiting receiver without awaiting.
@@ -352,7 +352,7 @@ impl<T: Send> RendezvousAsyncReceiver<T> {
   /// Receives a value, resolving once a sender hands one off or the channel
   /// disconnects.
   pub fn recv(&self) -> RecvFuture<'_, T> {
-    RecvFuture::new(&self.shared)
+    RecvFuture::new(&self.shared, self.closed.load(Ordering::Relaxed))
   }
 
   /// Attempts to take from an already-waiting sender without awaiting.
@@ -433,16 +433,19 @@ impl<T: Send> Drop for RendezvousAsyncReceiver<T> {
 pub struct SendFuture<'a, T: Send> {
   shared: &'a Arc<MpscRvShared<T>>,
   slot: Option<T>,
+  /// the handle was already closed when the future was created
+  handle_closed: bool,
   state: AtomicU8,
   registered: bool,
   _pin: PhantomPinned,
 }
 
 impl<'a, T: Send> SendFuture<'a, T> {
-  fn new(shared: &'a Arc<MpscRvShared<T>>, item: T) -> Self {
+  fn new(shared: &'a Arc<MpscRvShared<T>>, item: T, handle_closed: bool) -> Self {
     Self {
       shared,
       slot: Some(item),
+      handle_closed,
       state: AtomicU8::new(WAITING),
       registered: false,
       _pin: PhantomPinned,
@@ -457,6 +460,10 @@ impl<'a, T: Send> Future for SendFuture<'a, T> {
     let this = unsafe { self.get_unchecked_mut() };
     if this.slot.is_none() && !this.registered {
       return Poll::Ready(Ok(()));
+    }
+    if this.handle_closed && !this.registered {
+      // a handle that was itself closed rejects the operation (like the sync forms)
+      return Poll::Ready(Err(SendError::Closed));
     }
     this
       .shared
@@ -482,16 +489,19 @@ impl<'a, T: Send> Drop for SendFuture<'a, T> {
 pub struct RecvFuture<'a, T: Send> {
   shared: &'a Arc<MpscRvShared<T>>,
   dest: Option<T>,
+  /// the handle was already closed when the future was created
+  handle_closed: bool,
   state: AtomicU8,
   registered: bool,
   _pin: PhantomPinned,
 }
 
 impl<'a, T: Send> RecvFuture<'a, T> {
-  fn new(shared: &'a Arc<MpscRvShared<T>>) -> Self {
+  fn new(shared: &'a Arc<MpscRvShared<T>>, handle_closed: bool) -> Self {
     Self {
       shared,
       dest: None,
+      handle_closed,
       state: AtomicU8::new(WAITING),
       registered: false,
       _pin: PhantomPinned,
@@ -504,6 +514,10 @@ impl<'a, T: Send> Future for RecvFuture<'a, T> {
 
   fn poll(self: Pin<&mut Self>, cx: &mut Context<'_>) -> Poll<Self::Output> {
     let this = unsafe { self.get_unchecked_mut() };
+    if this.handle_closed && !this.registered {
+      // a handle that was itself closed rejects the operation (like the sync forms)
+      return Poll::Ready(Err(RecvError::Disconnected));
+    }
     this
       .shared
       .poll_recv(cx, &this.state, &mut this.dest, &mut this.registered)
